@@ -15,16 +15,22 @@ namespace detail {
 template <typename T>
 [[nodiscard]] constexpr auto nextafter(T from, T to) -> T
 {
-    using U             = etl::conditional_t<sizeof(T) == 4U, etl::uint32_t, etl::uint64_t>;
-    auto const fromBits = etl::bit_cast<U>(from);
-    auto const toBits   = etl::bit_cast<U>(to);
-    if (toBits == fromBits) {
+    using U = etl::conditional_t<sizeof(T) == 4U, etl::uint32_t, etl::uint64_t>;
+    if (from != from or to != to) {
+        return from + to;
+    }
+    if (from == to) {
         return to;
     }
-    if (toBits > fromBits) {
-        return etl::bit_cast<T>(fromBits + 1);
+    if (from == T(0)) {
+        auto const smallest = etl::bit_cast<T>(U(1));
+        return to < T(0) ? -smallest : smallest;
     }
-    return etl::bit_cast<T>(fromBits - 1);
+    auto const fromBits = etl::bit_cast<U>(from);
+    if ((from < to) == (from > T(0))) {
+        return etl::bit_cast<T>(static_cast<U>(fromBits + 1));
+    }
+    return etl::bit_cast<T>(static_cast<U>(fromBits - 1));
 }
 } // namespace detail
 
